@@ -371,6 +371,11 @@ class BaseAccumulator:
         raise NotImplementedError()
 
     def intercept(self, element, varname, category, tentative):
+        if tentative is ABSENT:
+            # A declaration without a value: there is no tentative value to
+            # show, and the ABSENT marker must not be handed to user code
+            self.captures.pop(element.capture, None)
+            return self._call_with_snapshot(element, self._intercept)
         cap = Capture(element)
         self.captures[element.capture] = cap
         cap.names.append(varname)
